@@ -164,10 +164,12 @@ func c08IPListener(r *simcore.Run, tp *simcore.Tape) map[string]any {
 			burst := 1 + tp.Intn(6, "burst")
 			for i := 0; i < burst; i++ {
 				var pl []byte
-				switch tp.Intn(8, "kind") {
+				switch tp.Intn(9, "kind") {
 				case 0:
 					pl = make([]byte, tp.Intn(2049, "len"))
 					rand.Read(pl)
+				case 8: // an authenticator field with odd nonce / ciphertext lengths, the datagram ending in or right after the nonce
+					pl = c08OddAuthenticator(tp, hdr())
 				case 7: // correctly sealed, hostile extension fields inside the encrypted part
 					pl = c08SealedHostileInside(r, tp, hdr(), prov)
 				case 6: // correctly sealed under a valid cookie, with a unique identifier of unusual length
@@ -262,6 +264,29 @@ func c08SealedOddUID(r *simcore.Run, tp *simcore.Tape, hdr []byte, prov *ntske.P
 
 var c08UIDLen = 32
 
+// c08OddAuthenticator: header, a unique identifier field, and an authenticator field whose
+// nonce length is not a multiple of four and whose ciphertext is tiny, cut off inside or
+// right behind the nonce or its padding.
+func c08OddAuthenticator(tp *simcore.Tape, hdr []byte) []byte {
+	b := append([]byte(nil), hdr[:48]...)
+	uid := make([]byte, 32)
+	rand.Read(uid)
+	b = append(b, 0x01, 0x04, 0, 36)
+	b = append(b, uid...)
+	nl := []int{1, 2, 3, 5, 15, 17, 21, 22, 23, 255}[tp.Intn(10, "noncelen")]
+	cl := []int{0, 1, 2, 3, 16}[tp.Intn(5, "ctlen")]
+	pad := (4 - nl%4) % 4
+	flen := 4 + 4 + nl + pad + cl
+	if tp.Bool(1, 3, "flen-short") {
+		flen = 4 + 4 + nl + cl
+	}
+	b = append(b, 0x04, 0x04, byte(flen>>8), byte(flen), byte(nl>>8), byte(nl), byte(cl>>8), byte(cl))
+	body := make([]byte, nl+pad+cl)
+	rand.Read(body)
+	b = append(b, body[:nl+tp.Intn(pad+cl+1, "tail")]...)
+	return b
+}
+
 // c08EncFields: what the authenticator of the next c08RawNTSRequest encrypts (extension
 // fields that only the holder of the session keys can place there)
 var c08EncFields []byte
@@ -353,6 +378,27 @@ func c08SCIONPacket(tp *simcore.Tape, l4dst uint16, segLens []int, withAuth, wit
 	return append([]byte(nil), buffer.Bytes()...)
 }
 
+// c08WidenSrcHost rewrites a SCION header with a 4-byte source host address into one with
+// a source host address of 4*(1+extra) bytes (header length and address-length field adjusted).
+func c08WidenSrcHost(raw []byte, extra int) []byte {
+	if len(raw) < 36 || raw[9]&0x03 != 0 {
+		return raw
+	}
+	dl := int(raw[9]>>4) & 0x03
+	srcEnd := 12 + 16 + 4*(dl+1) + 4
+	if srcEnd > len(raw) {
+		return raw
+	}
+	out := append([]byte(nil), raw[:srcEnd]...)
+	pad := make([]byte, 4*extra)
+	rand.Read(pad)
+	out = append(out, pad...)
+	out = append(out, raw[srcEnd:]...)
+	out[5] += byte(extra)
+	out[9] = out[9]&^0x03 | byte(extra)
+	return out
+}
+
 func c08SCIONListener(r *simcore.Run, tp *simcore.Tape) map[string]any {
 	scDrawFamily(r)
 	w := newSCIONWorld(r, 0, 1)
@@ -395,6 +441,8 @@ func c08SCIONListener(r *simcore.Run, tp *simcore.Tape) map[string]any {
 			return c08SealedOddUID(r, tp, plainReq(), prov)
 		case 3:
 			return c08SealedHostileInside(r, tp, plainReq(), prov)
+		case 4:
+			return c08OddAuthenticator(tp, plainReq())
 		}
 		return plainReq()
 	}
@@ -420,7 +468,15 @@ func c08SCIONListener(r *simcore.Run, tp *simcore.Tape) map[string]any {
 					withTS = []int{0, 8, 15, 16, 17, 32, 63, 64, 65}[tp.Intn(9, "tslen")]
 				}
 				raw := c08SCIONPacket(tp, l4, segs, withAuth, withTS, ntpReq())
-				switch tp.Intn(8, "how") {
+				switch tp.Intn(9, "how") {
+				case 8:
+					// a consistent header whose source host address is 8 or 12 bytes long (no IP
+					// address), in front of a full-length authenticator option or none
+					if !scV6 {
+						raw = c08SCIONPacket(tp, l4, segs, []int{28, 28, -1}[tp.Intn(3, "widea")], withTS, ntpReq())
+						raw = c08WidenSrcHost(raw, 1+tp.Intn(2, "wide"))
+						r.Probe("source-host-address-not-an-ip")
+					}
 				case 0, 1:
 					raw = c08Mutate(tp, raw)
 				case 2: // address type/length nibbles (8- and 12-byte host addresses)
